@@ -187,7 +187,7 @@ func monC05(x *Ctx) {
 	n := x.Budget(120, 1200)
 	for i := 0; i < n; i++ {
 		in := fmt.Sprintf("p%d", i)
-		carrier, clean, err := x.Plan(s, in, i%numPlanModes)
+		carrier, clean, err := x.PlanNullElems(s, in, i%numPlanModes)
 		if err != nil {
 			x.Res.Harness = append(x.Res.Harness, err.Error())
 			return
